@@ -6,6 +6,31 @@ import os
 VERIF = os.path.dirname(os.path.dirname(os.path.abspath(__file__)))
 
 CHECKS = {
+    "C01": dict(
+        technique="TLV grammar extraction (abstract interpretation of the writer and reader idioms) + sibling cross-check",
+        text="NECESSARY CONDITION: the grammar each pack/_pack_inner/get_value can emit and the grammar each _unpack_*/unpack accepts are extracted from the AST "
+             "and aligned: every emitted component is accepted at that point (position or tag dispatch) with the same universal kind, an accepted tag, the same "
+             "dataclass field on both sides, inverse conversions, omission <=> decoder default; field coverage; protocolOp/choice dispatch; exact consumption of one "
+             "outer SEQUENCE; writers pure; no post-decode mutation except two reviewed injections. Value equality and primitive arithmetic are not decided.",
+        note="Reader idioms recognised: positional reads, sub-readers, while-reader repetition, peek+tag-test dispatch loops with skip_value, optional-by-peek; an "
+             "unknown reader shape is an ANALYSIS-ERROR for that class, never a verdict.",
+        ref="DESIGN.md section 5 C01, section 4 Engine B"),
+    "C03": dict(
+        technique="TLV writer-grammar extraction compared with an independent RFC 4511 / RFC 2696 table",
+        text="Decides the TLV STRUCTURE of everything the writers can emit: tag class, number and primitive/constructed form, universal kind, order, OPTIONAL/DEFAULT "
+             "handling and field correspondence of every component of the 9 messages, 10 filter alternatives, 2 credential choices and the control forms, against a "
+             "table transcribed from the RFC (not from the code). One known finding (UnbindRequest constructed bit, pinned by tests). Minimal integer/length octets "
+             "(arithmetic) and SIZE constraints are not decided.",
+        note="Trusted: the RFC transcription in sa/tlvcheck.py (DESIGN.md Appendix A); asn1.py's primitive writers (range safety and constants under C07).",
+        ref="DESIGN.md section 5 C03, Appendix A"),
+    "C04": dict(
+        technique="structural obligations on the extracted reader grammars and on asn1.py's header routine",
+        text="NECESSARY CONDITIONS for the four encoding freedoms: (1) one header routine, none of whose rejections depends on the number of length octets or on "
+             "minimality; (2) BOOLEAN truth is content != 00; (3) every DEFAULT component has a real reader of its own kind; (4) in every SEQUENCE reader the tail is "
+             "tag-dispatched with unknown tags skipped and nothing rejects leftover data. Equality of values decoded from alternative forms (multi-octet length "
+             "arithmetic) is not decided.",
+        note="Same extractor and trusted base as C01.",
+        ref="DESIGN.md section 5 C04"),
     "C02": dict(
         technique="structural lemmas on the AST + path-sensitive effect extraction of receive (typestate engine)",
         text="Decides the five code-shape lemmas from which chunking independence follows by induction (the induction is on paper): L1/L2 a reader "
@@ -73,6 +98,14 @@ CHECKS = {
              "the returned bytes and the retained buffer are complementary slices at the same cut value; draining touches nothing else; bytes are appended iff the send succeeds.",
         note="Recognised drain shapes: prefix/suffix slices, or a read offset with cut-consistent retention; any other design is an ANALYSIS-ERROR, not a verdict.",
         ref="DESIGN.md section 5 C12"),
+    "C13": dict(
+        technique="dataflow (sanitiser routing) + byte-class algebra and regular-language inclusion on folded patterns",
+        text="SERIALISER-SIDE NECESSARY CONDITIONS: every bytes-typed filter field reaches the text only through the value serialiser; the escape class contains every "
+             "byte RFC 4515 or the parser gives meaning to plus all non-ASCII bytes, and leaves only printable ASCII; escapes are backslash + two hex digits and that "
+             "language is accepted by the un-escaper's patterns; hex digits are decoded strictly. These make un-escape(escape(v)) = v. That the parser rebuilds the "
+             "same TREE (offset arithmetic, C14) is not decided.",
+        note="Trusted: re._parser dialect; RFC 4515 special bytes transcribed in the checker.",
+        ref="DESIGN.md section 5 C13"),
     "C15": dict(
         technique="may-raise analysis + dimension typing of offsets + guard dataflow (+ regular-language inclusion)",
         text="Decides totality of LDAPFilter.from_string up to the listed undecided window-index sites (escape set is FilterSyntaxError), a dimension discipline "
@@ -80,6 +113,20 @@ CHECKS = {
              "attribute pattern, whose language is compared with RFC 4512 by automata inclusion. Round trip of accepted results is not decided.",
         note="IndexError on the scanners' window view needs relational offset arithmetic and is listed as undecided in the evidence, never alarmed.",
         ref="DESIGN.md section 5 C15"),
+    "C16": dict(
+        technique="byte-class algebra + regular-language inclusion on folded patterns + field coverage",
+        text="NECESSARY CONDITIONS of the schema text round trip: escape agreement between _encode_qdstring, the RFC dstring grammar and the reader's un-escape pattern; "
+             "single-pass un-escaping (no order-dependent replace chain); the keyword order each __str__ can emit is accepted by the description pattern; every field is "
+             "written and parsed. Equality of the whole definition (post-regex strip/split extraction) is not decided.",
+        note="Trusted: re._parser dialect; RFC 4512 dstring transcription.",
+        ref="DESIGN.md section 5 C16"),
+    "C17": dict(
+        technique="exact regular-language inclusion (RFC 4512 grammars vs the folded description patterns) + may-raise analysis",
+        text="Decides EXACTLY, for all sentences and all spacing choices, that each RFC 4512 description grammar (plus the quoted SYNTAX variant) is included in the language "
+             "its pattern accepts under .match (on-the-fly subset construction, shortest counter-example); decides totality (only ValueError can leave from_string), "
+             "group-name existence and single-pass un-escaping. That the extracted FIELDS equal what the grammar denotes (strip/split code) is not decided.",
+        note="Trusted: the RFC transcription in sa/rx/rfc.py (DESIGN.md Appendix B); re._parser dialect.",
+        ref="DESIGN.md section 5 C17, Appendix B"),
     "C18": dict(
         technique="automata-theoretic ambiguity analysis of every regular expression recovered by constant folding",
         text="Decides for all regular expressions of the package (10 distinct, 12 use sites): no exponential ambiguity with a constructed failing witness family "
@@ -87,6 +134,14 @@ CHECKS = {
              "re-parse-on-failure. Wall-clock constants and exact polynomial degree are not decided.",
         note="Trusted: re._parser as the dialect; the backtracking cost model (number of distinct runs). Patterns are never compiled or matched.",
         ref="DESIGN.md section 5 C18, section 4 Engine E"),
+    "C19": dict(
+        technique="ownership / effect-set rules over the AST of the whole package (absence rules with a known-bad fixture)",
+        text="Decides absence of shared mutable state: session attributes are fresh allocations created in __init__, no class-level mutables, option defaults built by "
+             "fresh factories, no function writes or uses module-level/class-level mutable objects (one reviewed exception), every options argument is rooted at a "
+             "parameter or at the session's own options, register_* refuse duplicates before appending to the session's own list. The interleaving statement follows "
+             "from these on paper.",
+        note="Trusted: the non-interference argument from absence of shared mutable state; CPython enum internals for the reviewed _missing_ memo.",
+        ref="DESIGN.md section 5 C19"),
 }
 
 NOT_APPLICABLE = {
